@@ -10,6 +10,8 @@
     `w & ((1 << b) - 1)`             ↔ `filter (· < b)`     `w & !((1 << b) - 1)` ↔ `filter (b ≤ ·)`
     `prefix | bit`, `idx << BITS`    ↔ `prefix + bit`, `idx * 64`   (prefixes are multiples of 64, bits < 64)
     `a & b`, `a | b`, `!a`           ↔ list intersection, sorted union, complement in `0..64`
+  Level C (Word.lean, WordIter.lean, WordSet.lean, WordSplit.lean, WordAvg.lean) proves this table and
+  the refinement of the word-level code to the functions below, so the assumption is discharged.
 -/
 namespace SpecsModel.HiBitSet
 
